@@ -11,7 +11,8 @@ PROP = "C11"
 
 CLASSES = {}
 
-LIT = [["lit", 0], ["lit", 0, 1], ["lit", 0, 1, 2], ["lit", "a"], ["lit", "a", "b"], ["lit", 0, "a"], ["lit", "a", 0], ["lit", 0, "a", 1]]
+LIT = [["lit", 0], ["lit", 0, 1], ["lit", 0, 1, 2], ["lit", "a"], ["lit", "a", "b"], ["lit", 0, "a"], ["lit", "a", 0], ["lit", 0, "a", 1],
+       ["lit", 0.0], ["lit", 1.0, 0.0]]
 TUP = [["tuple"], ["tuple", "int"], ["tuple", "str"], ["tuple", "int", "str"], ["tuple", ["lit", 0]], ["tuple", ["lit", "z"], "int"], ["tuple", "int", "int"]]
 GEN = [["gen", "list", "int"], ["gen", "list", "str"], ["gen", "Sequence", "int"], ["gen", "Collection", "int"], ["gen", "set", "int"],
        ["gen", "Mapping", "str", "int"], ["gen", "dict", "str", "int"], ["gen", "dict", "int", "int"]]
@@ -34,7 +35,7 @@ def combos(tier):
 
 
 CORPUS = [
-    ("0", 0), ("1", 1), ("2", 2), ("3", 3), ("7", 7), ("10", 10), ("'a'", "a"), ("'b'", "b"), ("'ab'", "ab"), ("'az'", "az"), ("'z'", "z"),
+    ("0", 0), ("1", 1), ("2", 2), ("3", 3), ("7", 7), ("10", 10), ("0.0", 0.0), ("1.0", 1.0), ("10.5", 10.5), ("'a'", "a"), ("'b'", "b"), ("'ab'", "ab"), ("'az'", "az"), ("'z'", "z"),
     ("'zz'", "zz"), ("''", ""), ("'c1'", "c1"), ("1.5", 1.5), ("()", ()), ("(0,)", (0,)), ("('z',)", ("z",)), ("(0,'a')", (0, "a")),
     ("('z',1)", ("z", 1)), ("(0,0)", (0, 0)), ("('a',)", ("a",)), ("(1,2,3)", (1, 2, 3)), ("[]", []), ("[0]", [0]), ("['a']", ["a"]),
     ("[0,'a']", [0, "a"]), ("['a',0]", ["a", 0]), ("set()", set()), ("{0}", {0}), ("{'a'}", {"a"}), ("{}", {}), ("{'k':1}", {"k": 1}),
@@ -44,10 +45,11 @@ VALUES = dict(CORPUS)
 
 
 def companions(j, vtype, overlap):
-    vals = [10, 11, 12, 13, 14] if vtype == "int" else ["c1", "c2", "c3", "c4", "c5"]
+    vals = {"int": [10, 11, 12, 13, 14], "str": ["c1", "c2", "c3", "c4", "c5"], "float": [10.5, 11.5, 12.5, 13.5, 14.5]}[vtype]
     vals = vals[:j]
     if overlap and j:
-        vals[0] = 0 if vtype == "int" else "a"
+        # for float: a value that is == to the int 0 but of another type (no subclass relation between int and float)
+        vals[0] = {"int": 0, "str": "a", "float": 0.0}[vtype]
     return [["lit", v] for v in vals]
 
 
@@ -55,7 +57,7 @@ def programs(tier):
     types = LIT + TUP + GEN + STR + combos(tier)
     for T in types:
         for j in range(6):
-            for vtype in ("int", "str"):
+            for vtype in ("int", "str", "float"):
                 for overlap in (False, True):
                     if overlap and j == 0:
                         continue
